@@ -775,7 +775,23 @@ def broker_replay(v, pid, behs, label, auth="mockSuccess", maxqos=2, own_tags=No
     own_tags = own_tags or {pid}
     if len(behs) == 0:
         raise Infra("%s: the specification produced no behaviours to replay" % label)
-    res = core.merge(core.run_sharded(["brokerreplay", "-auth", auth, "-maxqos", str(maxqos), "-frag", str(frag), "-own", ",".join(sorted(own_tags))] + (["-orderonly", "1"] if orderonly else []) + (["-pipe", "1"] if pipe else []), behs, timeout=2400))
+    life = pid in ("C09", "C10") and frag == 0 and not orderonly
+    lifedir = tempfile.mkdtemp(prefix="verif-life-") if life else None
+    try:
+        res = core.merge(core.run_sharded(["brokerreplay", "-auth", auth, "-maxqos", str(maxqos), "-frag", str(frag), "-own", ",".join(sorted(own_tags))] + (["-orderonly", "1"] if orderonly else []) + (["-pipe", "1"] if pipe else [])
+                                          + (["-life", os.path.join(lifedir, "life{shard}.ndjson"), "-lifeevery", str(max(1, len(behs) // 6000))] if life else []), behs, timeout=2400))
+        if life:
+            # the life cycle of every broker connection of these runs (start, goroutine exits, DISCONNECT seen, stop phases,
+            # will) must be a behaviour of Life; a rejection at a will step is C09's observable, any other C16's
+            text = ""
+            for fn in sorted(os.listdir(lifedir)):
+                with open(os.path.join(lifedir, fn)) as f:
+                    text += f.read()
+            life_validate(v, "C09" if pid == "C09" else "C16", label, text)
+    finally:
+        if lifedir:
+            import shutil
+            shutil.rmtree(lifedir, ignore_errors=True)
     mine = [m for m in res.get("mismatches", []) if m.get("tag") in own_tags]
     foreign = [m for m in res.get("mismatches", []) if m.get("tag") not in own_tags]
     v.cov["parts"][label] = {"behaviours": res.get("evaluations", 0), "steps": res.get("steps", 0),
@@ -999,9 +1015,64 @@ CONSTANTS
  MaxSend = %d
  SubsOf <- %s
  WillOf <- %s
-INVARIANTS AtDone
-PROPERTIES TornDown CloseReturns
+INVARIANTS AtDone LifeInv
+PROPERTIES TornDown CloseReturns LifeRefined
 """
+
+
+LIFE_CFG = """SPECIFICATION TraceSpec
+CONSTANTS MaxConn = %d
+INVARIANTS AtDone WillDealtWith NeverAfterDisconnect
+POSTCONDITION Accepted
+"""
+
+
+def life_validate(v, pid, label, text):
+    """Recorded life-cycle events of real connections (hook verifLife) against spec/LifeTrace.tla = actions of spec/Life.tla,
+    the skeleton that Teardown refines. Rejections at a will step are C09's observable, everything else is C16's."""
+    lines = text.splitlines()
+    part = v.cov["parts"].setdefault("life-traces", {"recordings": 0, "events": 0, "rejected": 0})
+    if not lines:
+        return
+    maxc = 1
+    for ln in lines:
+        c = json.loads(ln)["c"]
+        maxc = max(maxc, c)
+    ok, matched, reports, why = validate_trace(v, "LifeTrace", LIFE_CFG % maxc, text, "LifeTrace:" + label, "connection life cycle", timeout=900)
+    nrec = sum(1 for ln in lines if '"reset"' in ln)
+    part["recordings"] += nrec
+    part["events"] += len(lines)
+    v.cov["traces_validated_against_impl"] += nrec
+    v.cov["evaluations"] += len(lines)
+    if ok:
+        return
+    part["rejected"] += 1
+    if reports:
+        matched = reports[-1]["report"]["matched"]
+    # the event that could not be taken (or after which an invariant failed) and the events of its connection before it
+    k = min(max(matched, 0), len(lines) - 1)
+    if "Invariant" in (why or "") and k > 0:
+        k -= 1
+    bad = json.loads(lines[k])
+    start = k
+    while start > 0 and '"reset"' not in lines[start - 1]:
+        start -= 1
+    hist = [json.loads(x) for x in lines[start:k + 1]]
+    mine = [h["e"] + ("(w=1)" if h.get("w") else "") for h in hist if h["c"] == bad["c"]]
+    willish = bad["e"] in ("stop.will",) or (bad["e"] == "stop.done" and "Invariant" not in (why or "")) or "Will" in (why or "") or "NeverAfter" in (why or "")
+    owner = "C09" if willish else "C16"
+    what = ("recorded life cycle of a broker connection is not a behaviour of the Life specification (%s): event %d %s of connection %d cannot follow [%s]"
+            % (why or "no enabled action", k + 1, bad["e"] + ("(will flag set)" if bad.get("w") else ""), bad["c"], " ".join(mine[:-1])[-700:]))
+    if bad["e"] == "reset":
+        unfinished = sorted({h["c"] for h in hist if h["e"] == "start"} - {h["c"] for h in hist if h["e"] == "stop.done"})
+        what = ("recorded life cycle: all connections of the broker had been ended, but the teardown of connection(s) %s never finished (events of the first: [%s])"
+                % (unfinished, " ".join(h["e"] for h in hist if unfinished and h["c"] == unfinished[0])[-600:]))
+        owner = "C16"
+    m = {"what": what, "tag": owner, "replay": {"configuration": label, "events": hist[-60:]}}
+    if owner == pid or (pid in ("C09", "C16") and owner in ("C09", "C16") and pid == owner):
+        v.mismatch(m)
+    else:
+        v.notes.append("life trace rejected on an observable of %s: %s" % (owner, what[:300]))
 
 
 def faults_run(v, pid, plan):
@@ -1012,7 +1083,22 @@ def faults_run(v, pid, plan):
         r = core.cached_tlc(name, "Faults", FAULTS_CFG % (cross, selfsub, att, d, wk), workers=1, timeout=600)
         v.tlc(name, r)
         scen = core.behaviours(r.lines)
-        results = core.run_sharded(["faults", "-own", pid], scen, timeout=2400, died_is_result=True)
+        lifedir = tempfile.mkdtemp(prefix="verif-life-")
+        try:
+            results = core.run_sharded(["faults", "-own", pid, "-life", os.path.join(lifedir, "life{shard}.ndjson")], scen, timeout=2400, died_is_result=True)
+            lifetext = ""
+            for fn in sorted(os.listdir(lifedir)):
+                with open(os.path.join(lifedir, fn)) as f:
+                    t = f.read()
+                # a shard that died leaves a file without its last recording: keep the complete recordings only
+                cut = t.rfind('{"e":"reset"')
+                if cut >= 0:
+                    lifetext += t[:t.index("\n", cut) + 1]
+        finally:
+            import shutil
+            shutil.rmtree(lifedir, ignore_errors=True)
+        if pid in ("C16", "C09"):
+            life_validate(v, pid, name, lifetext)
         died = [x for x in results if x.get("died")]
         res = core.merge([x for x in results if not x.get("died")])
         for x in died:
